@@ -21,7 +21,19 @@ pub enum QOp {
     ToVec,
 }
 
+/// queue-alphabet ids: 1..3 are UUID-format ids, 4 is a ULID-format id with the same 16 bytes as #1
+pub fn q_id(id: u64) -> pricelevel::OrderId {
+    oid(id)
+}
+
 pub fn q_order(id: u64) -> Ord_ {
+    if id == 4 {
+        return crate::seq_level::set_id_ts(&mk_ts(Tmpl::S3, 1, LEVEL_PRICE, 15), q_id(4), 15);
+    }
+    q_order_plain(id)
+}
+
+fn q_order_plain(id: u64) -> Ord_ {
     // #1 later than #2 and #3, which tie
     let t = match id {
         1 => Tmpl::S5,
@@ -36,7 +48,21 @@ pub fn q_order(id: u64) -> Ord_ {
     mk_ts(t, id, LEVEL_PRICE, ts)
 }
 
-#[derive(Clone, Debug, PartialEq, Eq)]
+impl PartialEq for QRes {
+    fn eq(&self, o: &Self) -> bool {
+        match (self, o) {
+            (QRes::Unit, QRes::Unit) => true,
+            (QRes::Order(a), QRes::Order(b)) => a.as_ref().map(rec) == b.as_ref().map(rec),
+            (QRes::Num(a), QRes::Num(b)) => a == b,
+            (QRes::Bool(a), QRes::Bool(b)) => a == b,
+            (QRes::List(a), QRes::List(b)) => same_orders(a, b),
+            (QRes::Failed(a), QRes::Failed(b)) => a == b,
+            _ => false,
+        }
+    }
+}
+
+#[derive(Clone, Debug)]
 pub enum QRes {
     Unit,
     Order(Option<Ord_>),
@@ -64,8 +90,8 @@ fn apply_impl(rec: &Recorder, q: &OrderQueue, op: &QOp) -> QRes {
             QRes::Unit
         }
         QOp::Pop => QRes::Order(q.pop().map(|o| *o)),
-        QOp::Remove(id) => QRes::Order(q.remove(oid(*id)).map(|o| *o)),
-        QOp::Find(id) => QRes::Order(q.find(oid(*id)).map(|o| *o)),
+        QOp::Remove(id) => QRes::Order(q.remove(q_id(*id)).map(|o| *o)),
+        QOp::Find(id) => QRes::Order(q.find(q_id(*id)).map(|o| *o)),
         QOp::Len => QRes::Num(q.len()),
         QOp::IsEmpty => QRes::Bool(q.is_empty()),
         QOp::ToVec => {
@@ -92,8 +118,8 @@ fn apply_model(m: &mut ModelQueue, op: &QOp) -> QRes {
             QRes::Unit
         }
         QOp::Pop => QRes::Order(m.pop()),
-        QOp::Remove(id) => QRes::Order(m.remove(oid(*id))),
-        QOp::Find(id) => QRes::Order(m.find(oid(*id))),
+        QOp::Remove(id) => QRes::Order(m.remove(q_id(*id))),
+        QOp::Find(id) => QRes::Order(m.find(q_id(*id))),
         QOp::Len => QRes::Num(m.len()),
         QOp::IsEmpty => QRes::Bool(m.len() == 0),
         QOp::ToVec => {
@@ -127,7 +153,7 @@ fn check_forms(q: &OrderQueue, want: &[Ord_]) -> Vec<String> {
     let text = q.to_string();
     match OrderQueue::from_str(&text) {
         Ok(q2) => {
-            if content(&q2) != want {
+            if !same_orders(&content(&q2), want) {
                 msgs.push(format!("C19 text form round-trip changed the orders (text {text})"));
             }
         }
@@ -136,7 +162,7 @@ fn check_forms(q: &OrderQueue, want: &[Ord_]) -> Vec<String> {
     match serde_json::to_string(q) {
         Ok(j) => match serde_json::from_str::<OrderQueue>(&j) {
             Ok(q2) => {
-                if content(&q2) != want {
+                if !same_orders(&content(&q2), want) {
                     msgs.push(format!("C19 JSON form round-trip changed the orders (json {j})"));
                 }
             }
@@ -147,11 +173,11 @@ fn check_forms(q: &OrderQueue, want: &[Ord_]) -> Vec<String> {
     let v = q.to_vec();
     let listing_ids: Vec<u128> = v.iter().map(|o| rec(o).id).collect();
     let q3 = OrderQueue::from_vec(v.clone());
-    if content(&q3) != want || drain(&q3) != listing_ids {
+    if !same_orders(&content(&q3), want) || drain(&q3) != listing_ids {
         msgs.push("C19 from_vec(listing): different orders or pop order != list order".into());
     }
     let q4 = OrderQueue::from(v);
-    if content(&q4) != want || drain(&q4) != listing_ids {
+    if !same_orders(&content(&q4), want) || drain(&q4) != listing_ids {
         msgs.push("C19 From<Vec>(listing): different orders or pop order != list order".into());
     }
     msgs
@@ -208,6 +234,7 @@ impl Subject for QueueSubject {
         }
         let res = apply_impl(rcd, &q, &op);
         let mres: Vec<QRes> = models.iter_mut().map(|m| apply_model(m, &op)).collect();
+        let models_after = models.clone();
         let post = content(&q);
         let len_now = q.len();
         let empty_now = q.is_empty();
@@ -230,7 +257,13 @@ impl Subject for QueueSubject {
         // model-independent: len / is_empty / listing describe exactly the queued orders
         let mut forms_msgs = vec![];
         let recs: Vec<Rec> = post.iter().map(rec).collect();
-        out.key = hash128(&(&tickets, &recs, aux.alive));
+        let mkeys0: Vec<_> = models_after
+            .iter()
+            .enumerate()
+            .filter(|(i, _)| aux.alive & (1 << i) != 0)
+            .map(|(_, m)| m.state_key())
+            .collect();
+        out.key = hash128(&(&tickets, &recs, aux.alive, &mkeys0));
         if !seen(out.key) {
             forms_msgs = check_forms(&q, &post);
             out.extra_exec += 4;
@@ -255,7 +288,7 @@ impl Subject for QueueSubject {
             } else {
                 let mut want = m.orders.clone();
                 want.sort_by_key(|o| rec_key(o));
-                if want != post || len_now != want.len() || empty_now != want.is_empty() {
+                if !same_orders(&want, &post) || len_now != want.len() || empty_now != want.is_empty() {
                     agree = false;
                     why.push(format!(
                         "queued orders / len / is_empty differ: model {} orders, implementation lists {} (len {}, is_empty {})",
@@ -305,11 +338,18 @@ impl Subject for QueueSubject {
             out.violations.push(m);
             out.extend = false;
         }
-        out.key = hash128(&(&tickets, &recs, new_alive));
+        let mkeys: Vec<_> = models_after
+            .iter()
+            .enumerate()
+            .filter(|(i, _)| new_alive & (1 << i) != 0)
+            .map(|(_, m)| m.state_key())
+            .collect();
+        out.key = hash128(&(&tickets, &recs, new_alive, &mkeys));
         let mut queued = 0u8;
-        for r in &recs {
-            if r.id < 8 {
-                queued |= 1 << r.id;
+        for id in 1..=4u64 {
+            let n = idn(q_id(id));
+            if recs.iter().any(|r| r.id == n) {
+                queued |= 1 << id;
             }
         }
         out.aux.queued = queued;
@@ -402,14 +442,14 @@ fn constructor_grid() -> (u64, Vec<String>, Vec<Value>) {
 pub fn run(tier: &str) -> i32 {
     let mut report = Report::new("C19", tier, "model_checking");
     let mut ops = vec![];
-    for id in 1..=3 {
+    for id in 1..=4 {
         ops.push(QOp::Push(id));
     }
     ops.push(QOp::Pop);
-    for id in 1..=3 {
+    for id in 1..=4 {
         ops.push(QOp::Remove(id));
     }
-    for id in 1..=3 {
+    for id in [1, 2, 4] {
         ops.push(QOp::Find(id));
     }
     ops.extend([QOp::Len, QOp::IsEmpty, QOp::ToVec]);
@@ -417,7 +457,7 @@ pub fn run(tier: &str) -> i32 {
         ops,
         known: KnownFindings::load(),
     };
-    let depth = if tier == "quick" { 12 } else { 16 };
+    let depth = if tier == "quick" { 10 } else { 15 };
     let cfg = BfsConfig {
         max_depth: depth,
         wall_cap: crate::seq_checks::wall_cap(tier, 1),
